@@ -68,6 +68,7 @@ Viol ==
   ELSE IF ~IndependentJobsRun' THEN "IndependentJobsRun"
   ELSE IF ~ErrorNamesEveryFailedJob' THEN "ErrorNamesEveryFailedJob"
   ELSE IF ~FailureIsReported' THEN "FailureIsReported"
+  ELSE IF ~ErrorOnlyIfFailure' THEN "ErrorOnlyIfFailure"
   ELSE IF ~AllRunWhenNoFailure' THEN "AllRunWhenNoFailure"
   ELSE "none"
 
